@@ -748,7 +748,7 @@ def r_column_matrix(ctx, a):
         invx = np.linalg.inv(Mx)
         res = np.einsum('lij,ljk->lik', invx, want) - np.eye(2 * K + 1)[None]
         resn = res * r[None, None, :] / r[None, :, None]
-        ctx.oracle('numpy inverse of the matrix under a scale inverts the rescaled matrix D M D^-1', bool(np.all(np.abs(resn) <= 1e-6)),
+        ctx.oracle('numpy inverse of the matrix under a scale inverts the rescaled matrix D M D^-1', bool(np.all(np.abs(resn) <= 1e-9)),
                    {'scale': lab, 'max_residual(DEFAULT units)': float(np.max(np.abs(resn)))})
 
 
